@@ -792,7 +792,7 @@ fn main() {
     window_only_backends(&run, &mut total);
     driver_prefix(&run, &mut total);
     let meta = Meta {
-        rule: "(a) prefix law on every edge parent->child of the history trees (single series, null-free plain family, pairs, positive-lag shift/vshift/vdiff/vpct_change with n in 0..=len+2 and every fill): f(child)[..len-1] == f(parent) bit for bit, for every window and min_periods; by induction every cut point. (b) window-only dependence: for every window word W (|W|<=w_max) and every pre-history A (|A|<=a_max, finite values and nulls), also for the two-series family over pair words: last output of f(A++W) equals that of f(W) (exact for min/max/arg/rank, 1e-9 otherwise). Non-trivial = word with a non-null element; each edge compares the parent's memoised outputs with the child's. Also the window-only relation on every input back end (window-only-backends) and the integer orders 1 and 2 of the fractional difference (DESIGN 5.15, 5.16).".into(),
+        rule: "(a) prefix law on every edge parent->child of the history trees (single series, null-free plain family, pairs, positive-lag shift/vshift/vdiff/vpct_change with n in 0..=len+2 and every fill): f(child)[..len-1] == f(parent) bit for bit, for every window and min_periods; by induction every cut point. (b) window-only dependence: for every window word W (|W|<=w_max) and every pre-history A (|A|<=a_max, finite values and nulls), also for the two-series family over pair words: last output of f(A++W) equals that of f(W) (exact for min/max/arg/rank, 1e-9 otherwise). Non-trivial = word with a non-null element; each edge compares the parent's memoised outputs with the child's. Also the window-only relation on every input back end (window-only-backends) and the integer orders 1 and 2 of the fractional difference (DESIGN 5.15, 5.16). Round 9 (DESIGN 5.18): driver-prefix - the slice and index drivers themselves (rolling_custom, rolling_custom_iter, rolling_apply with a window-sum callback) satisfy the prefix law on every input back end including the option views of Vec / VecDeque / Array1.".into(),
         bounds: json!({
             "prefix-valid": {"alphabet": json_word(&single.alpha), "L": single.max_len, "types": single.tys.iter().map(|t| t.name.clone()).collect::<Vec<_>>()},
             "prefix-plain": {"alphabet": json_word(&plain.alpha), "L": plain.max_len},
